@@ -43,7 +43,13 @@ from c06_classes import PL, RC, rc_resolve  # noqa: E402
 STRICT_ABSENT = False
 
 ST_OIDS = {'p0': 1, 'p1': 2, 'p2': 3, 'p3': 4, 'r0': 0x11, 'r1': 0x12, 'r2': 0x13}
-DESC = b'c06 transaction'       # >= 4 bytes of metadata: keeps clear of the offset-39 quirk (finding #12, C04)
+DESC = b'c06 transaction'
+
+
+def desc_for(label):
+    """some transactions carry no metadata at all (an empty first transaction then ends below file
+    offset 39, the former finding #12 of _txn_find, repaired in /repo)"""
+    return '' if sum(map(ord, label)) % 3 == 0 else DESC.decode()
 
 
 def hx(n):
@@ -339,7 +345,7 @@ class Real:
         fs = self.fs
         if self.mode == 'st':
             tid = self.next_tid()
-            t = TransactionMetaData('', DESC.decode(), {})
+            t = TransactionMetaData('', desc_for(label), {})
             fs.tpc_begin(t, tid)
             for name in sorted(sets):
                 vals = sets[name] if isinstance(sets[name], list) else [sets[name]]
@@ -351,6 +357,9 @@ class Real:
             fs.tpc_vote(t)
             fs.tpc_finish(t)
         else:
+            if not sets:                 # nothing joins the transaction: no storage transaction at all
+                ev['kind'] = 'skip'
+                return
             self.tm1.begin()
             root = self.c1.root()
             for name in sorted(sets):
@@ -391,7 +400,7 @@ class Real:
         res = 'ok'
         if self.mode == 'st':
             utid = self.next_tid()
-            t = TransactionMetaData('', DESC.decode(), {})
+            t = TransactionMetaData('', desc_for(label), {})
             fs.tpc_begin(t, utid)
             try:
                 for i in ids64:
@@ -862,6 +871,8 @@ def gen_history(rng, mode):
     for i in range(n):
         k = rng.choice([1, 1, 2, 2, 3])
         sets = {}
+        if mode == 'st' and rng.random() < 0.07:
+            k = 0                              # an empty transaction (it can be undone, too)
         for name in rng.sample(names, k):
             if name in written and rng.random() < 0.3:
                 v = rng.choice(written[name])                 # an "equal in effect" later change
@@ -1100,7 +1111,8 @@ def main(argv=None):
             'structure of the real file and that structure is checked against Inv (invB) by the driver',
             'refusing to undo an un-creation while the object is un-created through another record '
             '(absent vs absent) is accepted as either outcome and counted (grey:absent-vs-absent-refused)',
-            'the first transaction always carries >= 4 bytes of metadata (finding #12 of C04, offset 39)'])
+            'after a pack the oracle continues from the history the storage iterator reports (what a pack '
+            'keeps is C07): e.g. an un-creation that was current at the pack time disappears with the pack'])
 
 
 if __name__ == '__main__':
